@@ -61,10 +61,13 @@ def run_case(ctx, case):
     ctx.count('shapes')
     if len({e for e in case['ext']}) > 1:
         ctx.count('non_cubic_shapes')
+    pc_int = envs.PositionComponent(dummy, m, 0, 0, 0)
+    pc_frac = envs.PositionComponent(dummy, m, 0, 0, 0)
     for ci, c in enumerate(table):
-        centres = [('id', ci), ('tuple', c),
-                   ('position', envs.PositionComponent(dummy, m, c[0], c[1], c[2])),
-                   ('fractional', envs.PositionComponent(dummy, m, c[0] + 0.25, c[1] + 0.9, c[2] + 0.5))]
+        # the SAME component objects are re-used and moved (an agent's position component changes as the agent moves)
+        pc_int.x, pc_int.y, pc_int.z = c
+        pc_frac.x, pc_frac.y, pc_frac.z = c[0] + 0.25, c[1] + 0.9, c[2] + 0.5
+        centres = [('id', ci), ('tuple', c), ('position', pc_int), ('fractional', pc_frac)]
         for r in range(maxr + 1):
             cheb = [p for p in table if max(abs(p[0] - c[0]), abs(p[1] - c[1]), abs(p[2] - c[2])) <= r]
             manh = [p for p in table if abs(p[0] - c[0]) + abs(p[1] - c[1]) + abs(p[2] - c[2]) <= r]
